@@ -351,6 +351,12 @@ func NewManager(
 		return nil, err
 	}
 
+	// blocks below the initial height do not exist, so they are not waiting for DA submission:
+	// without this a chain with InitialHeight > 1 counts them as pending, fails to load them on
+	// every submission attempt and, with a pending limit, never produces a block
+	pendingHeaders.setLastSubmittedHeaderHeight(ctx, genesis.InitialHeight-1)
+	pendingData.setLastSubmittedDataHeight(ctx, genesis.InitialHeight-1)
+
 	// If lastBatchHash is not set, retrieve the last batch hash from store
 	lastBatchDataBytes, err := store.GetMetadata(ctx, storepkg.LastBatchDataKey)
 	if err != nil && s.LastBlockHeight > 0 {
